@@ -83,6 +83,10 @@ fn main() {
                 std::process::exit(1);
             }
         }
+        "oneshot" => {
+            let stack: usize = arg_val(&args, "--stack").and_then(|s| s.parse().ok()).unwrap_or(2 << 20);
+            std::process::exit(cosetmon::hostile::child_main(stack));
+        }
         "explain" => {
             // cosetmon explain <Type> <hex>: independent parse, model verdict, crate result
             use cosetmon::model::{self, Ty};
